@@ -532,6 +532,20 @@ def bv_reserve_shape(crate):
                 ok = bool(dyn) and all(b.edge_dominates((sb, ts), d) for d in dyn)
         out.append((b, "Bv::reserve|promotion predicate", "pass" if ok else "violation",
                     "promotes to heap storage exactly when len + additional > Bvp::capacity()" if ok else "promotion predicate not recognised"))
+    if b is not None:
+        # every reserve() issued by Bv::reserve passes `additional` unchanged: the promoted Bvd has the same length
+        # as the inline vector, so reserve(additional) is what makes capacity >= len + additional
+        rs = [e for e in storage.events(b) if e.kind == "mcall" and e.name == "reserve"]
+        okr = len(rs) == 2 and all(e.args[1] == ("param", "additional") for e in rs)
+        if okr:
+            for e in rs:
+                o = e.args[0]
+                if o[0] == "var":
+                    init = b.init_expr(o[2])
+                    okr = okr and init is not None and mir.is_call(init, "from") and mir.payload_variant_of(init[3][0]) == "Fixed"
+        out.append((b, "Bv::reserve|reserve amount", "pass" if okr else "violation",
+                    "both arms reserve exactly `additional` (the promoted copy has the same length)" if okr else
+                    "reserve is called with %s" % [mir.show(e.args[1]) for e in rs]))
     b = None
     for x in crate.bodies:
         if x.key == "Bv::shrink_to_fit":
